@@ -96,6 +96,17 @@ def main():
                 "foreign_eq": [any((o == f) or (f == o) for f in foreign) if o is not None else False for o in objs],
                 "set_size": len(set(o for o in objs if o is not None)),
             }
+        elif op == "walk":
+            objs, obs_ = [], []
+            for s_ in it["strings"]:
+                obj, o = construct(it["ver"], unesc(s_), with_json=False, reparse=False)
+                objs.append(obj)
+                obs_.append(o)
+            o0 = objs[0]
+            ev["out"] = {"obs": obs_,
+                         "eq0": [bool(o0 == o) if (o0 is not None and o is not None) else False for o in objs],
+                         "eq0r": [bool(o == o0) if (o0 is not None and o is not None) else False for o in objs],
+                         "hash0": [(hash(o0) == hash(o)) if (o0 is not None and o is not None) else False for o in objs]}
         else:
             raise ValueError(op)
         out.append(ev)
